@@ -23,8 +23,48 @@ CHECKS = {
         note="verdicts come only from real-code observations (race report, overlapping frames, hang, batch without sequential explanation); a model counterexample that is not reproduced is exit 2; Prog (segment sequence per operation) is transcribed by reading, LockMode and raw/call are measured"),
 }
 
+import re, glob
+FAM_OF = {"C01": "gensign", "C02": "gensign", "C03": "gensign", "C04": "gensign", "C05": "keyid", "C19": "keyid", "C06": "attest",
+          "C16": "attest", "C12": "wire", "C13": "wire", "C20": "wait", "C14": "reqparam", "C15": "reqparam", "C17": "signer", "C18": "signer"}
+READY = [x.strip() for x in open(os.path.join(V, "tools", "ready.txt")).read().split() if x.strip()] if os.path.exists(os.path.join(V, "tools", "ready.txt")) else []
+
+
+def notes_entries(fam):
+    """Parse '## MANIFEST entries' of notes/<fam>.md: blocks 'Cxx' then '* level: `..`. text: "..."', '* level_note: ".."', '* technique: ".."'."""
+    path = os.path.join(V, "notes", fam + ".md")
+    if not os.path.exists(path):
+        return {}
+    txt = open(path).read()
+    m = re.search(r"^##+ .*MANIFEST.*$", txt, re.M | re.I)
+    if not m:
+        return {}
+    sec = txt[m.end():]
+    nxt = re.search(r"^## ", sec, re.M)
+    if nxt:
+        sec = sec[:nxt.start()]
+    out = {}
+    blocks = re.split(r"^\W*(C\d\d)\b.*$", sec, flags=re.M)
+    for i in range(1, len(blocks) - 1, 2):
+        pid, body = blocks[i], " ".join(blocks[i + 1].split())
+        def grab(key):
+            mm = re.search(key + r'\W*[:=]\W*"(.*?)"(?=\s*(\*|$|level_note|technique|text))', body)
+            return mm.group(1).strip() if mm else None
+        lvl = re.search(r"level\W*:\W*`?(\w+)`?", body)
+        out[pid] = {"level": lvl.group(1) if lvl else "model_checking", "text": grab("text"), "note": grab("level_note"), "technique": grab("technique")}
+    return out
+
+
+for pid in READY:
+    if pid in CHECKS or pid not in FAM_OF:
+        continue
+    e = notes_entries(FAM_OF[pid]).get(pid)
+    if not e or not e["text"]:
+        raise SystemExit("no MANIFEST entry text for %s in notes/%s.md" % (pid, FAM_OF[pid]))
+    CHECKS[pid] = dict(engine=FAM_OF[pid], design="5/" + pid + " and 11", technique=e["technique"] or "TLA+ spec + TLC + conformance harness",
+                       text=e["text"], note=e["note"] or "see notes/%s.md" % FAM_OF[pid], level=e["level"])
+
 checks = []
-for pid, c in CHECKS.items():
+for pid, c in sorted(CHECKS.items()):
     checks.append({
         "property_id": pid,
         "quick_cmd": "bin/check %s --tier quick" % pid,
@@ -32,7 +72,7 @@ for pid, c in CHECKS.items():
         "evidence_file": "evidence/%s.json" % pid,
         "replay_cmd_template": "bin/check %s --replay {path}" % pid,
         "engine": c["engine"],
-        "level_claimed": {"category": MC, "text": c["text"], "design_ref": "DESIGN.md section " + c["design"]},
+        "level_claimed": {"category": c.get("level", MC), "text": c["text"], "design_ref": "DESIGN.md section " + c["design"]},
         "level_note": c["note"],
         "technique": c["technique"],
     })
@@ -49,10 +89,15 @@ m = {
         {"name": "conc", "path": "tools/fam_conc.py", "serves_properties": ["C11"],
          "kind_free_text": "spec/ShimConc.tla + MCConc (measured lock table) + TraceLin.tla, TLC, Go harness harness/conc built with -race"},
     ],
+    "engines_extra": None,
     "checks": checks,
     "not_applicable": [{"property_id": p["id"], "reason": "check not built yet (build in progress, see DESIGN.md section 9)"}
                        for p in props if p["id"] not in CHECKS],
     "notes": "every check: exit 0 held / exit 1 + VIOLATION line / exit 2 no verdict (tool or harness problem, never a violation). known_findings.txt lists recorded findings and repaired defects.",
 }
+del m["engines_extra"]
+for fam in sorted(set(FAM_OF[p] for p in CHECKS if p in FAM_OF)):
+    m["engines"].append({"name": fam, "path": "tools/fam_%s.py" % fam, "serves_properties": sorted(p for p in CHECKS if FAM_OF.get(p) == fam),
+                         "kind_free_text": "TLA+ spec + TLC + Go harness under harness/%s, see notes/%s.md" % (fam, fam)})
 json.dump(m, open(os.path.join(V, "MANIFEST.json"), "w"), indent=1)
 print("MANIFEST.json: %d checks, %d not_applicable" % (len(checks), len(m["not_applicable"])))
